@@ -22,6 +22,7 @@
 (*   seq(mode, id, alts: Seq(body))  stopping / cycle / once               *)
 (*   set(x, e)  temp(x, e)  div(t)  tun(t)  tret  end  done  thr(t)        *)
 (*   ch(cs: Seq(choice), rest: body)  choice block followed by its gather  *)
+(*   chc(cs, rest)  choices inside a conditional block (no gather)         *)
 (*   gl(label)  gather / labelled point: counts a visit                    *)
 (*   call(f, args)  ret(e)                                                 *)
 (* Expressions: lit(v) var(n) cnt(n) u(op, a) b(op, a, b) ts(n) cc turns   *)
@@ -54,7 +55,8 @@ IsKnot(n) == n \in DOMAIN Prog.knots
 (*   ret    value returned by the function call that just finished         *)
 (***************************************************************************)
 Frame(b) == [b |-> b, i |-> 1]
-Act(kind, b) == [kind |-> kind, fr |-> <<Frame(b)>>, temps |-> <<>>, fnStart |-> 0, fnStart0 |-> 0, cont |-> [mode |-> "drop"]]
+Act(kind, b) == [kind |-> kind, fr |-> <<Frame(b)>>, temps |-> <<>>, fnStart |-> 0, fnStart0 |-> 0, cont |-> [mode |-> "drop"],
+                 prev |-> <<>>]      \* prev: where a halted element last stood (the containers it was in)
 
 InitVars == [i \in 1..Len(Prog.globals) |-> Prog.globals[i]]
 VarMap == [n \in {Prog.globals[i].n : i \in 1..Len(Prog.globals)} |->
@@ -85,21 +87,20 @@ RECURSIVE VisitAll(_, _, _)
 VisitAll(m, chain, from) ==
   IF chain = <<>> THEN m
   ELSE VisitAll(IF \E i \in DOMAIN from : from[i] = Head(chain) THEN m ELSE Visit(m, Head(chain)), Tail(chain), from)
-CurChain(m) == LET a == CurAct(m) IN IF a.fr = <<>> THEN <<>> ELSE InChain(Head(a.fr).b)
+CurChain(m) == LET a == CurAct(m) IN IF a.fr = <<>> THEN a.prev ELSE InChain(Head(a.fr).b)
 \* entering flow t from where the machine stands now: a container is counted when the position it is entered from
-\* is not inside it already.  A knot that consists of stitches hands over to its first stitch from its own level:
-\* that stitch is entered from outside even when the divert to the knot was written inside it.
-Enter(m, t) ==
-  LET from == CurChain(m)
-      eff == IF Knot(t).auto THEN SelectSeq(from, LAMBDA c : c = Knot(t).chain[1]) ELSE from IN
-  VisitAll(m, Knot(t).chain, eff)
+\* is not inside it already.  (A knot that consists of stitches has one statement of its own, the divert to its first
+\* stitch: that stitch is entered from the knot's level, i.e. counted even when the divert to the knot was written
+\* inside it.)
+Enter(m, t) == VisitAll(m, Knot(t).chain, CurChain(m))
 
 \* the only thread of the flow stops where it stands: the pointer of its current element is dropped, the call stack
 \* (with its temporary variables) stays as it is
-Halted(t) == IF t = <<>> THEN t ELSE <<[Head(t) EXCEPT !.fr = <<>>]>> \o Tail(t)
+Halted(t) == IF t = <<>> THEN t
+             ELSE <<[Head(t) EXCEPT !.fr = <<>>, !.prev = IF Head(t).fr = <<>> THEN Head(t).prev ELSE Prog.ochain[Head(Head(t).fr).b]]>> \o Tail(t)
 Halt(m) == [m EXCEPT !.th = << Halted(Head(m.th)) >>]
 \* END: the call stack is reset to a single element without position and without temporaries
-Fresh == << <<[kind |-> "root", fr |-> <<>>, temps |-> <<>>, fnStart |-> 0, fnStart0 |-> 0, cont |-> [mode |-> "drop"]]>> >>
+Fresh == << <<[kind |-> "root", fr |-> <<>>, temps |-> <<>>, fnStart |-> 0, fnStart0 |-> 0, cont |-> [mode |-> "drop"], prev |-> <<>>]>> >>
 Fail(m, kind) == [m EXCEPT !.err = kind, !.st = "end", !.th = Fresh]
 
 (***************************************************************************)
@@ -258,7 +259,7 @@ Exec(m, s) ==
                                       vals[CHOOSE i \in 1..Len(fn.params) : fn.params[i] = n]]
                           m1 == Advance(Enter(m, s.f))
                           act == [kind |-> "fn", fr |-> <<Frame(fn.body)>>, temps |-> temps, fnStart |-> Len(m.out) + 1,
-                                  fnStart0 |-> Len(m.out) + 1, cont |-> [mode |-> s.mode, x |-> s.x, e |-> s.e]] IN
+                                  fnStart0 |-> Len(m.out) + 1, cont |-> [mode |-> s.mode, x |-> s.x, e |-> s.e], prev |-> <<>>] IN
                       IF \E i \in 1..Len(vals) : vals[i].t = "error" THEN Fail(m, "argument")
                       ELSE SetThread(m1, <<act>> \o CurThread(m1))
     [] s.k = "ret" -> IF CurAct(m).kind # "fn" THEN Fail(m, "return outside a function")
@@ -294,6 +295,8 @@ Exec(m, s) ==
                       \* reached only through a choice: this thread of the flow is over
                       LET m1 == GenChoices(m, s.cs, 1, s.rest) IN
                       IF Len(m1.th) > 1 THEN [m1 EXCEPT !.th = Tail(m1.th)] ELSE [Halt(m1) EXCEPT !.st = "stopping"]
+    [] s.k = "chc" -> \* choices written inside a conditional block: they are generated and the flow goes on after the block
+                      Advance(GenChoices(m, s.cs, 1, s.rest))
     [] s.k = "end" -> Goto(m, "END")
     [] s.k = "done" -> Goto(m, "DONE")
     [] OTHER -> Fail(m, "unknown statement")
